@@ -514,6 +514,9 @@ func init() {
 		Rule:  "a wholly-known concrete value c (nulls at any depth) and an abstract value a obtained by weakening sub-values of c to unknowns that admit them (unrefined, not-null, numeric bounds, string prefixes, length bounds, DynamicVal when the target is placeholder-free); non-trivial when something was weakened, the target differs from c's type and Convert(c) succeeds; then Convert(a) must succeed and Admits(Convert(a), Convert(c))",
 		Quick: 50000, Thorough: 400000,
 		Gen: func(t *rapid.T) SoundIn {
+			if rapid.IntRange(0, 7).Draw(t, "dupmode") == 7 {
+				return genSoundDup(t)
+			}
 			o := soundOpts
 			if rapid.IntRange(0, 3).Draw(t, "fullvalues") == 0 {
 				o = soundOptsFull
@@ -714,6 +717,50 @@ func init() {
 	})
 
 	registerRoundTrips()
+}
+
+// genSoundDup draws the cases that decide whether length refinements survive
+// element coalescing: a list or tuple holding 2..3 copies of one member,
+// converted to a set, with the abstract input an unknown list with length
+// bounds around the true length (an unknown tuple, respectively).
+func genSoundDup(t *rapid.T) SoundIn {
+	et := gen.Type(gen.TypeOpts{Depth: 1}).Draw(t, "elemtype")
+	e := gen.Value(et, gen.ValOpts{Simple: true, RootKnown: true}).Draw(t, "elem")
+	k := rapid.IntRange(2, 3).Draw(t, "copies")
+	c := spec.V{St: spec.Known}
+	for i := 0; i < k; i++ {
+		c.Elems = append(c.Elems, e.Clone())
+	}
+	tupleForm := rapid.Bool().Draw(t, "tupleform")
+	edit := "list>set"
+	if tupleForm {
+		c.T = spec.Tuple()
+		edit = "tuple>set"
+	} else {
+		c.T = spec.List(e.T)
+	}
+	c = c.Retype()
+	target := spec.Set(e.T)
+	if e.T.IsPrim() && rapid.Bool().Draw(t, "viastring") {
+		target = spec.Set(spec.String)
+	}
+	a := spec.UnknownOf(c.T)
+	kinds := []string{"dup"}
+	r := &spec.Ref{}
+	if rapid.Bool().Draw(t, "notnull") {
+		r.Null = "notnull"
+		kinds = append(kinds, "notnull")
+	}
+	if !tupleForm {
+		lo := rapid.IntRange(0, k).Draw(t, "minlen")
+		hi := k + rapid.IntRange(0, 1).Draw(t, "maxlenextra")
+		r.MinLen, r.MaxLen = &lo, &hi
+		kinds = append(kinds, "minlen", "maxlen")
+	}
+	if *r != (spec.Ref{}) {
+		a.Ref = r
+	}
+	return SoundIn{C: convgen.Case{V: c, Target: target, Edits: []string{edit}}, A: a, Kinds: kinds}
 }
 
 // ---------------------------------------------------------------- round trips
